@@ -599,4 +599,37 @@ def tables(rec):
                      exhaustive=True)
 
 
-TASKS = [('individual', individual), ('population', population), ('tables', tables)]
+def heterogeneous_patients(rec):
+    """[bounded] virtual patients of a population whose dimensions are all heterogeneous (every modelled individual has its own parameters):
+    PopulationPredictiveModel.sample(n_samples) returns n_samples patients, each measured from one of the modelled individuals chosen at
+    random (HeterogeneousModel.sample: "randomly drawn from the n_ids individuals") -- for fewer and for more patients than individuals."""
+    import chi as real
+    Toy = c16.native_toy(1, 1)
+
+    def one(case):
+        n_ids, n_samples = case
+        pm = real.PredictiveModel(Toy(), [real.GaussianErrorModel()])
+        ppm = real.PopulationPredictiveModel(pm, real.HeterogeneousModel(n_dim=2, n_ids=n_ids))
+        par = []
+        for i_ in range(n_ids):
+            par += [float(i_ + 1), 0.01]          # individual i: level 5 + (i + 1), noise 0.01
+        firsts = []
+        for seed in range(1, 9):
+            a = np.asarray(ppm.sample(par, [1.0, 2.0], n_samples=n_samples, seed=seed, return_df=False), dtype=float)
+            n_ = 1 if n_samples is None else n_samples
+            if a.shape != (1, 2, n_):
+                return 'HeterogeneousModel(n_ids=%d), n_samples=%r: result of shape %s' % (n_ids, n_samples, a.shape)
+            who = np.round(a[0, 0, :] - 5.0)
+            if not np.all(np.isfinite(a)) or np.any(np.abs(a[0] - 5.0 - who[None, :]) > 0.2) or np.any(who < 1) or np.any(who > n_ids):
+                return 'HeterogeneousModel(n_ids=%d), n_samples=%r, seed %d: the measurements %s are not measurements of the modelled individuals (levels %s)' % (
+                    n_ids, n_samples, seed, np.round(a[0], 3).tolist(), [6.0 + i_ for i_ in range(n_ids)])
+            firsts.append(tuple(int(w_) for w_ in who[:n_ids]))
+        if n_ids > 1 and len(set(firsts)) == 1:
+            return 'HeterogeneousModel(n_ids=%d), n_samples=%r: for 8 seeds the first patients are always the individuals %s in this order (patients are not drawn from the individuals)' % (n_ids, n_samples, firsts[0])
+        return None
+    rec.native_check('population-predictive/heterogeneous.patients', ['chi._predictive_models.PopulationPredictiveModel.sample', 'chi._population_models.HeterogeneousModel.sample',
+                                                                      'chi._population_models.HeterogeneousModel.compute_individual_parameters'],
+                     [(3, 2), (2, None), (2, 5), (2, 2)], one, '(modelled individuals, requested patients) in {(3, 2), (2, 1), (2, 5), (2, 2)} x 8 seeds; distinct by case', exhaustive=True)
+
+
+TASKS = [('individual', individual), ('population', population), ('tables', tables), ('heterogeneous-patients', heterogeneous_patients)]
